@@ -478,12 +478,17 @@ def c04_programs(seed, tier):
         ("f64", {"min": v_f64(-1e300), "max": v_f64(1e300)}), ("sint", {"min": v_sint(I64MIN), "max": v_sint(5)}),
         ("mixed", {"min": v_int(0), "max": v_f64(1.0)}),
     ]
+    big = (1 << 53) + 1
+    lim_cases += [("int_2p53", {"min": v_int(-big), "max": v_int(big)}), ("int_near_extremes", {"min": v_int(I64MIN + 1), "max": v_int(I64MAX - 1)}),
+                  ("sint_2p53", {"min": v_sint(-big - 2), "max": v_sint(big + 2)}), ("int_extremes", {"min": v_int(I64MIN), "max": v_int(I64MAX)})]
     for name, l in lim_cases:
         out.append(prog(f"ilim_{name}", [new("g"), pc(p0, 2, setters=[setter("intensity_limits", l)]), FIN]))
     out.append(prog("ilim_reset", [new("g"), pc(p0, 2, setters=[setter("intensity_limits", None)]), FIN]))
     out.append(prog("ilim_default_float_undeclared", [new("g"), pc(xyz() + [rec("intensity", "single")], 2), FIN]))
     out.append(prog("ilim_default_float_declared", [new("g"), pc(xyz() + [rec("intensity", "single", f32(0.0), f32(1.0))], 2), FIN]))
     out.append(prog("ilim_default_sint", [new("g"), pc(xyz() + [rec("intensity", "sint", -5, 500, 0.001, 2.0)], 2), FIN]))
+    out.append(prog("clim_big", [new("g"), pc(p6, 2, setters=[setter("color_limits", {"rmin": v_int(-big), "rmax": v_int(big), "gmin": v_int(I64MIN + 1), "gmax": v_int(I64MAX - 1),
+                                                                                      "bmin": v_int(-(1 << 62) - 1), "bmax": v_int((1 << 62) + 1)})]), FIN]))
     cl = {"rmin": v_int(0), "rmax": v_int(255), "gmin": v_int(1), "gmax": v_int(254), "bmin": v_int(2), "bmax": v_int(253)}
     out.append(prog("clim_override", [new("g"), pc(p6, 2, setters=[setter("color_limits", cl)]), FIN]))
     out.append(prog("clim_reset", [new("g"), pc(p6, 2, setters=[setter("color_limits", None)]), FIN]))
